@@ -1046,6 +1046,8 @@ func (x *Exec) exitFunction(st *State, fr *Frame, res []*Val, panicked bool, pos
 	}
 	x.checkHeld(st, pos)
 	x.checkFrame(st, env, pos)
+	// objects still thread-local here may leave through the results: their object invariants must hold now
+	x.checkObjInvsOnShare(st, "return", pos)
 }
 
 // checkHeld: locks acquired by the function must be released at exit unless the contract says otherwise.
@@ -1061,6 +1063,9 @@ func (x *Exec) checkHeld(st *State, pos token.Pos) {
 	}
 	for _, id := range sortedHeld(st) {
 		h := st.Held[id]
+		if h.Borrowed {
+			continue
+		}
 		if h.Mon != nil && allowed[h.Mon.Lock] {
 			continue
 		}
